@@ -93,6 +93,21 @@ def run_check(pid, tier):
         print(line)
     exit_code = 0
     out_lines = []
+    if violations and getattr(mod, "SHRINKABLE", False):
+        # modules whose `replay` re-evaluates the oracle from the input alone: minimise the failing text
+        import contextlib, io
+        for f in violations[:5]:
+            inp = f.get("input") or {}
+            if isinstance(inp.get("code"), str) and len(inp["code"]) > 40 and inp.get("stream") != "cli":
+                def still_fails(code, f=f, inp=inp):
+                    with contextlib.redirect_stdout(io.StringIO()):
+                        return not mod.replay({"input": dict(inp, code=code), "required": f.get("required")})
+                try:
+                    small = common.shrink_text(inp["code"], still_fails)
+                except Exception:
+                    small = inp["code"]
+                if small != inp["code"]:
+                    f["input"] = dict(inp, code=small, shrunk_from_chars=len(inp["code"]))
     if violations:
         exit_code = 1
         for f in violations[:5]:
